@@ -367,7 +367,7 @@ func (r *Run) verifIntrinsic(st *State, fn *ssa.Function, a []Value, pos token.P
 			return nil, true, unknownf("assert on non-scalar (%s): %v", strLit(a[1]), err)
 		}
 		if po, ok := st.Hook.(*PO); ok && st.Hook != nil {
-			lbl := strLit(a[1])
+			lbl := r.relabel(strLit(a[1]))
 			if r.Prop != "" && len(lbl) > 4 && lbl[0] == 'C' && lbl[3] == '/' && lbl[:3] != r.Prop {
 				return nil, true, nil
 			}
@@ -823,7 +823,17 @@ type snapshot struct {
 	c *ByteFn
 }
 
+func (r *Run) relabel(label string) string {
+	if len(r.Relabel) > 0 && len(label) > 4 && label[3] == '/' {
+		if np, ok := r.Relabel[label[:3]]; ok {
+			return np + label[3:]
+		}
+	}
+	return label
+}
+
 func (r *Run) assert(st *State, c *smt.Term, label string, pos token.Pos) {
+	label = r.relabel(label)
 	// assertions labelled for another property are that property's business
 	if r.Prop != "" && len(label) > 4 && label[0] == 'C' && label[3] == '/' && label[:3] != r.Prop {
 		return
